@@ -347,6 +347,186 @@ theorem stack_update_primary (nP nS : Nat) (ss : List Side) (a i : Mat) (hai : i
 
 
 
+/-! ### `update_primary`: the face matching of `match_grids_along_1d_mortar` is a valid update -/
+
+/-- one side of the fracture: the old-face × new-face matrices of that side are row- resp.
+    column-stochastic on the side's faces -/
+theorem sideOrZero_sums (nOld nNew : Nat) (o n : List FaceRec) (a : Rat) (xs ys : List Rat)
+    (hto : Tessellates (o.map (·.cell)) a xs) (htn : Tessellates (n.map (·.cell)) a ys)
+    (hend : lastOr a xs = lastOr a ys)
+    (hoN : (o.map (·.idx)).Nodup) (hnN : (n.map (·.idx)).Nodup)
+    (hoR : ∀ x ∈ o.map (·.idx), x < nOld) (hnR : ∀ x ∈ n.map (·.idx), x < nNew) :
+    (∀ f, f ∈ o.map (·.idx) → (sideOrZero nOld nNew o n .averaged).rowSum f = 1) ∧
+    (∀ g, g ∈ n.map (·.idx) → (sideOrZero nOld nNew o n .integrated).colSum g = 1) := by
+  have hemp := tess_empty_iff hto htn hend
+  constructor
+  · intro f hf
+    have hone : o ≠ [] := by intro h; subst h; simp at hf
+    have hnne : n ≠ [] := by
+      intro h; apply hone
+      have := hemp.mpr (by rw [h]; rfl)
+      exact List.map_eq_nil_iff.mp this
+    unfold sideOrZero
+    rw [if_neg (by simp [List.isEmpty_iff, hone, hnne])]
+    unfold sideFaceMatch
+    obtain ⟨a0, h0, e0⟩ := exists_getD_of_mem _ nOld f hf
+    rw [scatter_rowSum _ _ _ _ _ (by rw [match1d_c]; simp) (getD_lt_of_forall _ _ _ hnR) f (hoR f hf),
+      sum_ind_select _ (fun a => (o.map (·.idx)).getD a nOld) f a0 _ h0 e0
+        (fun a ha e => getD_inj_of_nodup _ _ hoN a a0 ha h0 e)]
+    exact match1d_avg_rowsum_one _ _ a xs ys hto htn hend a0 (by simpa using h0)
+  · intro g hg
+    have hnne : n ≠ [] := by intro h; subst h; simp at hg
+    have hone : o ≠ [] := by
+      intro h; apply hnne
+      have := hemp.mp (by rw [h]; rfl)
+      exact List.map_eq_nil_iff.mp this
+    unfold sideOrZero
+    rw [if_neg (by simp [List.isEmpty_iff, hone, hnne])]
+    unfold sideFaceMatch
+    obtain ⟨b0, h0, e0⟩ := exists_getD_of_mem _ nNew g hg
+    rw [scatter_colSum _ _ _ _ _ (by rw [match1d_c]; simp) (by rw [match1d_r]; simp)
+        (getD_lt_of_forall _ _ _ hoR) g (hnR g hg),
+      sum_ind_select _ (fun b => (n.map (·.idx)).getD b nNew) g b0 _ h0 e0
+        (fun b hb e => getD_inj_of_nodup _ _ hnN b b0 hb h0 e)]
+    exact match1d_int_colsum_one _ _ a xs ys hto htn hend b0 (by simpa using h0)
+
+
+
+/-- the own side's block plus a block that vanishes on the own faces is a valid primary update
+    (in either order of the sum) -/
+theorem primary_valid_of_blocks (c c' : Ctx) (s : Side) (A I A' I' : Mat)
+    (hnS : c'.nS = c.nS)
+    (hAr : A.r = c.nP) (hAc : A.c = c'.nP) (hIr : I.r = c.nP) (hIc : I.c = c'.nP)
+    (hA'r : A'.r = c.nP) (hA'c : A'.c = c'.nP) (hI'r : I'.r = c.nP) (hI'c : I'.c = c'.nP)
+    (h1 : ∀ f, f < c.nP → c.cov f → A.rowSum f = 1)
+    (h2 : ∀ f g, c.cov f → ¬ c'.cov g → A.ent f g = 0)
+    (h3 : ∀ g, g < c'.nP → c'.cov g → I.colSum g = 1)
+    (h4 : ∀ f g, ¬ c.cov f → c'.cov g → I.ent f g = 0)
+    (h5 : ∀ f g, c.cov f → ¬ c'.cov g → I.ent f g = 0)
+    (h6 : ∀ f g, c.cov f ∨ c'.cov g → A'.ent f g = 0 ∧ I'.ent f g = 0) :
+    ValidUpd c s c' (.primary (A.add A') (I.add I')) ∧ ValidUpd c s c' (.primary (A'.add A) (I'.add I)) := by
+  constructor
+  · refine ⟨hnS, hAr, hIr, hAc, hIc, ?_, ?_, ?_, ?_, ?_⟩
+    · intro f hf hc
+      rw [rowSum_add A A' f (hAr ▸ hf) (by rw [hA'c, hAc]), h1 f hf hc,
+        rowSum_zero_of_ent A' f (fun g => (h6 f g (Or.inl hc)).1)]
+      ring
+    · intro f g hc hg
+      exact ent_add_zero A A' f g (h2 f g hc hg) (h6 f g (Or.inl hc)).1
+    · intro g hg hc
+      rw [colSum_add I I' g (hIc ▸ hg) (by rw [hI'r, hIr]), h3 g hg hc,
+        colSum_zero_of_ent I' g (fun f => (h6 f g (Or.inr hc)).2)]
+      ring
+    · intro f g hf hc
+      exact ent_add_zero I I' f g (h4 f g hf hc) (h6 f g (Or.inr hc)).2
+    · intro f g hc hg
+      exact ent_add_zero I I' f g (h5 f g hc hg) (h6 f g (Or.inl hc)).2
+  · refine ⟨hnS, hA'r, hI'r, hA'c, hI'c, ?_, ?_, ?_, ?_, ?_⟩
+    · intro f hf hc
+      rw [rowSum_add A' A f (hA'r ▸ hf) (by rw [hA'c, hAc]), h1 f hf hc,
+        rowSum_zero_of_ent A' f (fun g => (h6 f g (Or.inl hc)).1)]
+      ring
+    · intro f g hc hg
+      exact ent_add_zero A' A f g (h6 f g (Or.inl hc)).1 (h2 f g hc hg)
+    · intro g hg hc
+      rw [colSum_add I' I g (hI'c ▸ hg) (by rw [hI'r, hIr]), h3 g hg hc,
+        colSum_zero_of_ent I' g (fun f => (h6 f g (Or.inr hc)).2)]
+      ring
+    · intro f g hf hc
+      exact ent_add_zero I' I f g (h6 f g (Or.inr hc)).2 (h4 f g hf hc)
+    · intro f g hc hg
+      exact ent_add_zero I' I f g (h6 f g (Or.inl hc)).2 (h5 f g hc hg)
+
+/-- `update_primary`: the matrices `match_grids_along_1d_mortar` builds from the fracture faces of
+    the old and the new host are a valid update for the mortar side lying on side `b` of the
+    fracture — provided the faces of that side tessellate the same segment in both hosts, face
+    indices are distinct and in range, and all listed old faces are covered by the mortar. -/
+theorem face_update_valid (P : Mat) (nNew nS : Nat) (s : Side) (old new : List FaceRec) (b : Bool)
+    (hcov : ∀ r ∈ old, covered P r.idx = true)
+    (hoN : (old.map (·.idx)).Nodup) (hnN : (new.map (·.idx)).Nodup)
+    (hoR : ∀ r ∈ old, r.idx < P.c) (hnR : ∀ r ∈ new, r.idx < nNew)
+    (a : Rat) (xs ys : List Rat)
+    (hto : Tessellates ((old.filter (·.pos == b)).map (·.cell)) a xs)
+    (htn : Tessellates ((new.filter (·.pos == b)).map (·.cell)) a ys)
+    (hend : lastOr a xs = lastOr a ys) :
+    ValidUpd ⟨fun f => ∃ r, r ∈ old ∧ r.pos = b ∧ r.idx = f, P.c, nS⟩ s
+      ⟨fun g => ∃ r, r ∈ new ∧ r.pos = b ∧ r.idx = g, nNew, nS⟩
+      (.primary (faceMatch P nNew old new .averaged) (faceMatch P nNew old new .integrated)) := by
+  have hfil : old.filter (fun f => covered P f.idx) = old := List.filter_eq_self.mpr hcov
+  have hoR' : ∀ (c : Bool), ∀ x ∈ (old.filter (·.pos == c)).map (·.idx), x < P.c := by
+    intro c x hx
+    obtain ⟨r, hr, _, e⟩ := (mem_side_idx old c x).mp hx
+    exact e ▸ hoR r hr
+  have hnR' : ∀ (c : Bool), ∀ x ∈ (new.filter (·.pos == c)).map (·.idx), x < nNew := by
+    intro c x hx
+    obtain ⟨r, hr, _, e⟩ := (mem_side_idx new c x).mp hx
+    exact e ▸ hnR r hr
+  have hs := sideOrZero_sums P.c nNew (old.filter (·.pos == b)) (new.filter (·.pos == b)) a xs ys hto htn hend
+    (nodup_side_idx old hoN b) (nodup_side_idx new hnN b) (hoR' b) (hnR' b)
+  have key := primary_valid_of_blocks
+    ⟨fun f => ∃ r, r ∈ old ∧ r.pos = b ∧ r.idx = f, P.c, nS⟩
+    ⟨fun g => ∃ r, r ∈ new ∧ r.pos = b ∧ r.idx = g, nNew, nS⟩ s
+    (sideOrZero P.c nNew (old.filter (·.pos == b)) (new.filter (·.pos == b)) .averaged)
+    (sideOrZero P.c nNew (old.filter (·.pos == b)) (new.filter (·.pos == b)) .integrated)
+    (sideOrZero P.c nNew (old.filter (·.pos == !b)) (new.filter (·.pos == !b)) .averaged)
+    (sideOrZero P.c nNew (old.filter (·.pos == !b)) (new.filter (·.pos == !b)) .integrated)
+    rfl (sideOrZero_r ..) (sideOrZero_c ..) (sideOrZero_r ..) (sideOrZero_c ..)
+    (sideOrZero_r ..) (sideOrZero_c ..) (sideOrZero_r ..) (sideOrZero_c ..)
+    (fun f _ hc => hs.1 f ((mem_side_idx old b f).mpr hc))
+    (fun f g _ hg => sideOrZero_ent_zero _ _ _ _ _ f g (Or.inr (fun h => hg ((mem_side_idx new b g).mp h))))
+    (fun g _ hc => hs.2 g ((mem_side_idx new b g).mpr hc))
+    (fun f g hf _ => sideOrZero_ent_zero _ _ _ _ _ f g (Or.inl (fun h => hf ((mem_side_idx old b f).mp h))))
+    (fun f g _ hg => sideOrZero_ent_zero _ _ _ _ _ f g (Or.inr (fun h => hg ((mem_side_idx new b g).mp h))))
+    (fun f g h => by
+      have : f ∉ (old.filter (·.pos == !b)).map (·.idx) ∨ g ∉ (new.filter (·.pos == !b)).map (·.idx) := by
+        rcases h with h | h
+        · exact Or.inl (not_mem_other_side old hoN b f ((mem_side_idx old b f).mpr h))
+        · exact Or.inr (not_mem_other_side new hnN b g ((mem_side_idx new b g).mpr h))
+      exact ⟨sideOrZero_ent_zero _ _ _ _ _ f g this, sideOrZero_ent_zero _ _ _ _ _ f g this⟩)
+  unfold faceMatch
+  simp only [hfil]
+  cases b with
+  | true => exact key.1
+  | false => exact key.2
+
+/-! ### the state machine of the model (what the driver executes) acts side by side -/
+
+/-- The state machine the driver executes, `update_mortar` step: on a state whose stored matrices are
+    the stack of per-side blocks, the step is the per-side update with the `match_1d` matrices. -/
+theorem step_mortar_stack (nP nS : Nat) (l : List (Side × List Cell × Option (List Cell)))
+    (h : ∀ x ∈ l, x.1.Shaped nP nS ∧ x.2.1.length = x.1.pInt.r) :
+    (step ⟨stackSides nP nS (l.map (·.1)), l.map (·.2.1), nS⟩ (.mortar (l.map (·.2.2)))).proj =
+      stackSides nP nS (l.map fun x =>
+        x.1.apply (.mortar (blockOf .averaged x.2.1 x.2.2) (blockOf .integrated x.2.1 x.2.2))) := by
+  show updateMortar _ (mortarBlocks .averaged _ _) (mortarBlocks .integrated _ _) = _
+  rw [mortarBlocks_map, mortarBlocks_map]
+  have := stack_update_mortar nP nS
+    (l.map fun x => (x.1, blockOf .averaged x.2.1 x.2.2, blockOf .integrated x.2.1 x.2.2)) (by
+      intro y hy
+      obtain ⟨x, hx, rfl⟩ := List.mem_map.mp hy
+      exact ⟨(h x hx).1, by rw [blockOf_c]; exact (h x hx).2, by rw [blockOf_c]; exact (h x hx).2⟩)
+  simpa [List.map_map, Function.comp_def] using this
+
+/-- … `update_secondary` step -/
+theorem step_secondary_stack (nP nS : Nat) (l : List (Side × List Cell)) (cells : List Cell) :
+    (step ⟨stackSides nP nS (l.map (·.1)), l.map (·.2), nS⟩ (.secondary cells)).proj =
+      stackSides nP cells.length (l.map fun x =>
+        x.1.apply (.secondary (match1d x.2 cells .averaged) (match1d x.2 cells .integrated))) := by
+  show updateSecondary _ _ _ _ = _
+  have := stack_update_secondary nP nS cells.length
+    (l.map fun x => (x.1, match1d x.2 cells .averaged, match1d x.2 cells .integrated))
+  simpa [List.map_map, Function.comp_def] using this
+
+/-- … `update_primary` step (the same two face matrices for every side) -/
+theorem step_primary_stack (nP nS : Nat) (ss : List Side) (sides : List (List Cell)) (nNew : Nat)
+    (old new : List FaceRec) (h : ∀ s ∈ ss, s.pInt.c = nP ∧ s.pAvg.c = nP) :
+    (step ⟨stackSides nP nS ss, sides, nS⟩ (.primary nNew old new)).proj =
+      stackSides nNew nS (ss.map fun s => s.apply
+        (.primary (faceMatch (stackSides nP nS ss).p2mInt nNew old new .averaged)
+          (faceMatch (stackSides nP nS ss).p2mInt nNew old new .integrated))) := by
+  show updatePrimary _ _ _ = _
+  rw [stack_update_primary nP nS ss _ _ (by rw [faceMatch_c, faceMatch_c]) h, faceMatch_c]
+
 /-! ### non-vacuity: concrete data satisfying the hypotheses -/
 section nonvacuity
 /-- two tessellations of [0,1]: cells listed right-to-left / left-to-right -/
@@ -408,6 +588,33 @@ example : updateMortar (stackSides 4 2 [exSide0, exSide0])
       rcases hx with rfl | rfl <;> exact ⟨⟨rfl, rfl, rfl, rfl, rfl, rfl, rfl⟩, rfl, rfl⟩)
 
 example : ((stackSides 4 2 [exSide0, exSide0]).s2mInt.colSum 0 = 2) ∧ exSide0.sInt.colSum 0 = 1 := by decide +kernel
+/-- `update_primary` data: faces 1,2 above / 4,5 below the fracture in the old host (6 faces), faces
+    1 above / 6,7 below in the new host (8 faces); all hypotheses of `face_update_valid` hold. -/
+def exP : Mat := table 4 6 fun i j => if [4, 5, 1, 2].getD i 9 = j then 1 else 0
+def exOldF : List FaceRec := [⟨1, true, (0, 1)⟩, ⟨2, true, (1, 2)⟩, ⟨4, false, (0, 1)⟩, ⟨5, false, (1, 2)⟩]
+def exNewF : List FaceRec := [⟨1, true, (0, 2)⟩, ⟨6, false, (0, 1/2)⟩, ⟨7, false, (1/2, 2)⟩]
+
+example (s : Side) : ValidUpd ⟨fun f => ∃ r, r ∈ exOldF ∧ r.pos = false ∧ r.idx = f, 6, 2⟩ s
+    ⟨fun g => ∃ r, r ∈ exNewF ∧ r.pos = false ∧ r.idx = g, 8, 2⟩
+    (.primary (faceMatch exP 8 exOldF exNewF .averaged) (faceMatch exP 8 exOldF exNewF .integrated)) :=
+  face_update_valid exP 8 2 s exOldF exNewF false (by decide +kernel) (by decide +kernel) (by decide +kernel)
+    (by decide +kernel) (by decide +kernel) 0 [1, 2] [1/2, 2]
+    ⟨List.Perm.refl _, by simp only [StrictSorted]; norm_num⟩
+    ⟨List.Perm.refl _, by simp only [StrictSorted]; norm_num⟩ rfl
+
+example : (faceMatch exP 8 exOldF exNewF .averaged).rows.getD 4 [] = [0, 0, 0, 0, 0, 0, 1/2, 1/2] ∧
+    (faceMatch exP 8 exOldF exNewF .integrated).rows.getD 5 [] = [0, 0, 0, 0, 0, 0, 0, 2/3] := by
+  decide +kernel
+
+/-- the model's `update_mortar` step on a two-sided interface: first side refined, second side kept -/
+example : (step ⟨stackSides 4 2 [exSide0, exSide0], [exOld2, exOld2], 2⟩ (.mortar [some exNew, none])).proj =
+    stackSides 4 2 [exSide0.apply (.mortar (match1d exNew exOld2 .averaged) (match1d exNew exOld2 .integrated)),
+                    exSide0.apply (.mortar (Mat.identity 2) (Mat.identity 2))] :=
+  step_mortar_stack 4 2 [(exSide0, exOld2, some exNew), (exSide0, exOld2, none)] (by
+    intro x hx
+    simp only [List.mem_cons, List.not_mem_nil, or_false] at hx
+    rcases hx with rfl | rfl <;> exact ⟨⟨rfl, rfl, rfl, rfl, rfl, rfl, rfl⟩, rfl⟩)
+
 end nonvacuity
 
 
